@@ -254,6 +254,9 @@ async fn s_namespace(h: &mut Host) -> Result<(), Fail> {
     expect_code(h.pull(s, 1, true).await, Code::NotFound, "C10", "Pull on an absent subscription")?;
     expect_code(h.ack(s, vec!["1".into()]).await, Code::NotFound, "C10", "Acknowledge on an absent subscription")?;
     expect_code(h.modack(s, vec!["1".into()], 10).await, Code::NotFound, "C10", "ModifyAckDeadline on an absent subscription")?;
+    expect_code(h.ack(s, vec![]).await, Code::NotFound, "C10", "Acknowledge (empty ack id list) on an absent subscription")?;
+    expect_code(h.modack(s, vec![], 10).await, Code::NotFound, "C10", "ModifyAckDeadline (empty ack id list) on an absent subscription")?;
+    expect_code(h.pull(s, 0, true).await, Code::NotFound, "C10", "Pull (max_messages 0) on an absent subscription")?;
     expect_code(h.subscriber.delete_subscription(DeleteSubscriptionRequest { subscription: s.into() }).await, Code::NotFound, "C10", "DeleteSubscription of an absent subscription")?;
     expect_code(h.subscriber.get_subscription(GetSubscriptionRequest { subscription: "projects/other/subscriptions/ns".into() }).await, Code::NotFound, "C17+C10", "GetSubscription after a CreateSubscription rejected for its project (the rejected request changed state)")?;
     for (secs, eff) in [(0, 10), (5, 10), (10, 10), (25, 25), (-3, 10), (600, 600), (601, 601), (900, 900)] {
@@ -268,6 +271,8 @@ async fn s_namespace(h: &mut Host) -> Result<(), Fail> {
         expect_code(h.sub(&name, t, secs, None).await, Code::AlreadyExists, "C10", "CreateSubscription of an existing name")?;
         h.subscriber.delete_subscription(DeleteSubscriptionRequest { subscription: name.clone() }).await.map_err(|e| f("C10+C11", format!("DeleteSubscription failed: {:?}", e.code())))?;
         expect_code(h.subscriber.get_subscription(GetSubscriptionRequest { subscription: name.clone() }).await, Code::NotFound, "C10+C11", "GetSubscription after DeleteSubscription returned")?;
+        expect_code(h.ack(&name, vec![]).await, Code::NotFound, "C10+C11", "Acknowledge (empty ack id list) after DeleteSubscription returned")?;
+        expect_code(h.modack(&name, vec![], 10).await, Code::NotFound, "C10+C11", "ModifyAckDeadline (empty ack id list) after DeleteSubscription returned")?;
     }
     // C10: a duplicate create that is rejected changes nothing - also when it carries a push configuration
     {
@@ -444,9 +449,9 @@ async fn s_lists_and_content(h: &mut Host) -> Result<(), Fail> {
     }
     // content identity (C09) on pull, redelivery and a second subscription
     let attrs: HashMap<String, String> = [("k".to_string(), "v".to_string()), ("k\u{e9}".to_string(), "\u{1F600}".to_string())].into_iter().collect();
-    let payloads: Vec<(Vec<u8>, HashMap<String, String>)> = vec![(vec![], HashMap::new()), (vec![0, 255, 1, 254, 0], attrs.clone()), (vec![b'x'; 70_000], HashMap::new())];
+    let payloads: Vec<(Vec<u8>, HashMap<String, String>)> = vec![(vec![], HashMap::new()), (vec![0, 255, 1, 254, 0], attrs.clone()), (vec![b'x'; 70_000], HashMap::new()), (vec![], attrs.clone())];
     let ids = h.publish(&hub, payloads.clone()).await.map_err(setup("publish"))?;
-    if ids.len() != 3 { return Err(f("C08", format!("Publish returned {} ids for 3 messages", ids.len()))); }
+    if ids.len() != payloads.len() { return Err(f("C08", format!("Publish returned {} ids for {} messages", ids.len(), payloads.len()))); }
     {
         let nums: Vec<u128> = ids.iter().map(|i| i.parse::<u128>().unwrap_or(0)).collect();
         if nums.windows(2).any(|w| w[0] >= w[1]) { return Err(f("C08", format!("Publish returned the ids {:?}: not strictly increasing in request order", ids))); }
@@ -455,11 +460,11 @@ async fn s_lists_and_content(h: &mut Host) -> Result<(), Fail> {
     for round in 0..2 {
         for sname in [&subs[0], &subs[1]] {
             let m = h.pull(sname, 10, true).await.map_err(setup("pull"))?;
-            if m.len() != 3 { return Err(f(if round == 0 { "C01" } else { "C05" }, format!("{}: {} of 3 messages delivered (round {}: after a nack of all three)", sname, m.len(), round))); }
+            if m.len() != payloads.len() { return Err(f(if round == 0 { "C01" } else { "C05" }, format!("{}: {} of {} messages delivered (round {}: after a nack of all of them)", sname, m.len(), payloads.len(), round))); }
             for rm in m.iter() {
                 let pm = rm.message.as_ref().ok_or_else(|| f("C09", "delivery without message".into()))?;
                 let k = ids.iter().position(|i| *i == pm.message_id).ok_or_else(|| f("C09", format!("delivery carries message id {:?}, Publish returned {:?}", pm.message_id, ids)))?;
-                if pm.data != payloads[k].0 || pm.attributes != payloads[k].1 { return Err(f("C09", format!("delivery of message {} does not carry the published data / attributes", k))); }
+                if pm.data != payloads[k].0 || pm.attributes != payloads[k].1 { return Err(f("C09", format!("delivery of message {} (published with {} data bytes and {} attributes) carries {} data bytes and the attributes {:?}", k, payloads[k].0.len(), payloads[k].1.len(), pm.data.len(), pm.attributes))); }
                 if round == 0 && *sname == subs[0] { first_times.push((pm.message_id.clone(), pm.publish_time.clone())); }
                 else if let Some((_, t0)) = first_times.iter().find(|(i, _)| *i == pm.message_id) { if *t0 != pm.publish_time { return Err(f("C09", "publish time differs between deliveries".into())); } }
             }
@@ -501,8 +506,12 @@ async fn s_two_waiters(h: &mut Host) -> Result<(), Fail> {
 /// minimal HTTP/1.1 endpoint for push deliveries: hands every request body to the scenario and answers 200
 async fn push_endpoint() -> Result<(String, tokio::sync::mpsc::UnboundedReceiver<Vec<u8>>), Fail> { push_endpoint_delayed(0).await }
 /// `delay_ms`: the endpoint answers each request only after that long (a slow consumer)
-pub(crate) async fn push_endpoint_delayed(delay_ms: u64) -> Result<(String, tokio::sync::mpsc::UnboundedReceiver<Vec<u8>>), Fail> {
+pub(crate) async fn push_endpoint_delayed(delay_ms: u64) -> Result<(String, tokio::sync::mpsc::UnboundedReceiver<Vec<u8>>), Fail> { push_endpoint_scripted(delay_ms, Vec::new()).await }
+/// `statuses`: the k-th request (over all connections) is answered with statuses[k]; 200 once the script is used up
+pub(crate) async fn push_endpoint_scripted(delay_ms: u64, statuses: Vec<u16>) -> Result<(String, tokio::sync::mpsc::UnboundedReceiver<Vec<u8>>), Fail> {
     use tokio::io::{AsyncReadExt, AsyncWriteExt};
+    let statuses = Arc::new(statuses);
+    let counter = Arc::new(std::sync::atomic::AtomicUsize::new(0));
     let l = tokio::net::TcpListener::bind("127.0.0.1:0").await.map_err(setup("bind push endpoint"))?;
     let port = l.local_addr().map_err(setup("addr"))?.port();
     let (tx, rx) = tokio::sync::mpsc::unbounded_channel::<Vec<u8>>();
@@ -510,6 +519,7 @@ pub(crate) async fn push_endpoint_delayed(delay_ms: u64) -> Result<(String, toki
         loop {
             let (mut sock, _) = match l.accept().await { Ok(x) => x, Err(_) => return };
             let tx = tx.clone();
+            let (statuses, counter) = (Arc::clone(&statuses), Arc::clone(&counter));
             tokio::spawn(async move {
                 let mut buf: Vec<u8> = Vec::new();
                 loop {
@@ -529,7 +539,9 @@ pub(crate) async fn push_endpoint_delayed(delay_ms: u64) -> Result<(String, toki
                     buf.drain(..head_end + len);
                     let _ = tx.send(body);
                     if delay_ms > 0 { tokio::time::sleep(Duration::from_millis(delay_ms)).await; }
-                    if sock.write_all(b"HTTP/1.1 200 OK\r\ncontent-length: 0\r\n\r\n").await.is_err() { return; }
+                    let k = counter.fetch_add(1, std::sync::atomic::Ordering::SeqCst);
+                    let status = statuses.get(k).copied().unwrap_or(200);
+                    if sock.write_all(format!("HTTP/1.1 {} X\r\ncontent-length: 0\r\n\r\n", status).as_bytes()).await.is_err() { return; }
                 }
             });
         }
@@ -878,6 +890,87 @@ async fn s_stream_mixed_modack(h: &mut Host) -> Result<(), Fail> {
     Ok(())
 }
 
+/// C02 / C05 with one ack id listed twice in one streaming control message: an ack is final although the same message
+/// also extends that lease; an extension followed by a nack of the same lease in one message requeues it
+async fn s_stream_same_id(h: &mut Host) -> Result<(), Fail> {
+    let (t, s) = ("projects/p/topics/ssi", "projects/p/subscriptions/ssi");
+    h.topic(t).await.map_err(c10("CreateTopic of an absent, well-formed name"))?;
+    h.sub(s, t, 0, None).await.map_err(c10("CreateSubscription of an absent name on an existing topic of the same project"))?;
+    h.publish(t, (1..=4u8).map(|i| (vec![i], HashMap::new())).collect()).await.map_err(setup("publish"))?;
+    let held = h.pull(s, 10, true).await.map_err(setup("pull"))?;
+    if held.len() != 4 { return Err(f("SETUP", format!("expected 4 messages, got {}", held.len()))); }
+    let by_data = |d: u8| held.iter().find(|m| m.message.as_ref().map(|x| x.data == vec![d]).unwrap_or(false)).map(|m| m.ack_id.clone());
+    let (a1, a2) = match (by_data(1), by_data(2)) { (Some(a), Some(b)) => (a, b), _ => return Err(f("C09", "deliveries do not carry the published data".into())) };
+    let first = StreamingPullRequest { subscription: s.to_string(), ack_ids: vec![], modify_deadline_seconds: vec![], modify_deadline_ack_ids: vec![], stream_ack_deadline_seconds: 0, client_id: "c".into(), max_outstanding_messages: 10, max_outstanding_bytes: 0 };
+    let ctl1 = StreamingPullRequest { subscription: String::new(), ack_ids: vec![a1.clone()], modify_deadline_seconds: vec![30], modify_deadline_ack_ids: vec![a1], stream_ack_deadline_seconds: 0, client_id: String::new(), max_outstanding_messages: 0, max_outstanding_bytes: 0 };
+    let ctl2 = StreamingPullRequest { subscription: String::new(), ack_ids: vec![], modify_deadline_seconds: vec![30, 0], modify_deadline_ack_ids: vec![a2.clone(), a2], stream_ack_deadline_seconds: 0, client_id: String::new(), max_outstanding_messages: 0, max_outstanding_bytes: 0 };
+    let mut inbound = h.subscriber.streaming_pull(async_stream::stream! { yield first; yield ctl1; yield ctl2; futures::future::pending::<()>().await; }).await.map_err(setup("streaming_pull"))?.into_inner();
+    match tokio::time::timeout(Duration::from_secs(5), inbound.message()).await {
+        Ok(Ok(Some(r))) => {
+            let datas: Vec<Vec<u8>> = r.received_messages.iter().map(|m| m.message.as_ref().map(|x| x.data.clone()).unwrap_or_default()).collect();
+            if datas != vec![vec![2u8]] { return Err(f("C05+C03", format!("control message [extend delivery of message 2 by 30 s, then nack the same delivery]: the stream was handed {:?}, expected exactly message 2", datas))); }
+        }
+        Ok(Err(e)) => return Err(f("C05+C17", format!("control message [extend a delivery by 30 s, nack the same delivery]: the stream failed with {:?}", e.code()))),
+        _ => return Err(f("C05", "control message [extend delivery of message 2 by 30 s, then nack the same delivery (0 s)]: the nacked message did not come back within 5 s".into())),
+    }
+    jump(Duration::from_secs(45)).await;    // an extension by 30 s applied to the acknowledged delivery would have run out by now
+    let mut datas: Vec<u8> = Vec::new();
+    for _ in 0..20 {
+        match tokio::time::timeout(Duration::from_millis(300), inbound.message()).await { Ok(Ok(Some(r))) => datas.extend(r.received_messages.iter().map(|m| m.message.as_ref().map(|x| x.data[0]).unwrap_or(0))), _ => break }
+    }
+    if datas.contains(&1) { return Err(f("C02", "a delivery acknowledged in a streaming control message (which also listed the same ack id with a 30 s extension) was delivered again".into())); }
+    Ok(())
+}
+
+/// C15: a unary Pull parked on an empty subscription does not turn into an empty OK response when the subscription
+/// is deleted under it (it fails, or keeps waiting for its limit)
+async fn s_pull_wait_delete(h: &mut Host) -> Result<(), Fail> {
+    let t = "projects/p/topics/pwd";
+    h.topic(t).await.map_err(c10("CreateTopic of an absent, well-formed name"))?;
+    let mut empty_ok = 0usize;
+    for i in 0..10 {
+        let s = format!("projects/p/subscriptions/pwd{}", i);
+        h.sub(&s, t, 0, None).await.map_err(c10("CreateSubscription of an absent name on an existing topic of the same project"))?;
+        let mut c = h.subscriber.clone();
+        let s2 = s.clone();
+        let mut waiter = tokio::spawn(async move {
+            #[allow(deprecated)]
+            c.pull(PullRequest { subscription: s2, return_immediately: false, max_messages: 1 }).await.map(|r| r.into_inner().received_messages)
+        });
+        tokio::time::sleep(Duration::from_millis(120)).await;
+        h.subscriber.delete_subscription(DeleteSubscriptionRequest { subscription: s.clone() }).await.map_err(|e| f("C11+C10", format!("DeleteSubscription failed: {:?}", e.code())))?;
+        match tokio::time::timeout(Duration::from_millis(400), &mut waiter).await {
+            Ok(Ok(Ok(m))) if m.is_empty() => empty_ok += 1,
+            Ok(_) => {}
+            Err(_) => waiter.abort(),
+        }
+    }
+    if empty_ok > 0 { return Err(f("C15", format!("{} of 10 unary Pulls (return_immediately=false) parked on an empty subscription returned an empty OK response right after DeleteSubscription, well before their wait limit", empty_ok))); }
+    Ok(())
+}
+
+/// C01 on the push path: a delivery that the endpoint answers with a status other than 102/200/201/202/204 is not
+/// acknowledged and comes back on a later push round
+async fn s_push_status(h: &mut Host) -> Result<(), Fail> {
+    let (t, s) = ("projects/p/topics/pst", "projects/p/subscriptions/pst");
+    let script = vec![203u16, 500, 205, 206, 301];
+    let (url, mut rx) = push_endpoint_scripted(0, script.clone()).await?;
+    h.topic(t).await.map_err(c10("CreateTopic of an absent, well-formed name"))?;
+    h.sub(s, t, 0, Some(&url)).await.map_err(c10("CreateSubscription (push) of an absent name on an existing topic"))?;
+    h.publish(t, vec![(b"once".to_vec(), HashMap::new())]).await.map_err(setup("publish"))?;
+    let mut posts = 0usize;
+    for _ in 0..40 {
+        jump(Duration::from_secs(1)).await;
+        while rx.try_recv().is_ok() { posts += 1; }
+        if posts > script.len() { break; }
+    }
+    if posts == 0 { return Err(f("SETUP", "push endpoint received nothing".into())); }
+    if posts <= script.len() {
+        return Err(f("C01", format!("push endpoint answering {:?} and 200 afterwards: the message was POSTed {} times over 40 push rounds; answer #{} ({}) is none of 102/200/201/202/204 and must not count as an acknowledgement", script, posts, posts, script[posts - 1])));
+    }
+    Ok(())
+}
+
 /// C11 on the push path: once DeleteSubscription has returned, its endpoint receives nothing further (a handful of
 /// requests already in flight are tolerated); C17: a push endpoint that starts with http but is not a URL does not
 /// take the push loop (and with it every other push subscription) down
@@ -1059,6 +1152,9 @@ pub fn run_all() -> i32 {
         ("stream_mixed_modack", |h| Box::pin(s_stream_mixed_modack(h))),
         ("push_lifecycle", |h| Box::pin(s_push_lifecycle(h))),
         ("recreate_race", |h| Box::pin(s_recreate_race(h))),
+        ("stream_same_id", |h| Box::pin(s_stream_same_id(h))),
+        ("pull_wait_delete", |h| Box::pin(s_pull_wait_delete(h))),
+        ("push_status", |h| Box::pin(s_push_status(h))),
     ];
     let n = scenarios.len() + multi.len();
     // every scenario runs; each failing one prints its own WITNESS line (the driver picks the one for the property at hand)
